@@ -233,6 +233,14 @@ theorem handler_denotes_events_partial (cfg : Cfg) (hcfg : plainCfg cfg = true)
   obtain ⟨node, h4, h5⟩ := eventsTree_document tblNsEnv cfg hcfg m q attrs kids hplain cs hcs
   exact ⟨cs, node, handlerRun_document tblNsEnv cfg m q attrs kids cs hcs, h5, h4⟩
 
+/-- `treeWriterDefined` and `plainContent` hold e.g. for mixed content with a colliding user prefix
+(the handler theorem needs no `userMapOK`) -/
+example :
+    let m : List (Pfx × Str) := [(some ['n', 's', '1'], urnA)]
+    let kids : Content := .data (str ['a']) (.child (inB ['c']) [(inA ['k'], str ['v'])] .nil (.data (str ['b']) .nil))
+    plainContent (.child (inB ['R']) [] kids .nil) = true ∧ treeWriterDefined tblNsEnv {} m (inB ['R']) [] kids = true := by
+  decide +kernel
+
 /-! ## Prefix generation -/
 
 /-- **generate_prefix never overwrites**: on a map satisfying the invariant
@@ -262,6 +270,15 @@ theorem load_prefix_bound (d : Option Str) (u : Str) (M : NsMap)
 theorem user_map_invariant (m : List (Pfx × Str)) (hm : userMapOK tblNsEnv m = true) :
     Proofs.MapInv.MapOK tblNsEnv (userDefault m) (serializerNsMap m) :=
   Proofs.UserMap.userMapOK_MapOK tblNsEnv m hm
+
+/-- the hypotheses of the three prefix theorems hold for a user map with a default namespace
+and two prefixes, and a namespace that has no prefix yet -/
+example :
+    let m : List (Pfx × Str) := [(none, urnA), (some ['p'], urnB), (some ['n', 's'], urnX)]
+    Proofs.MapInv.MapOK tblNsEnv (userDefault m) (serializerNsMap m)
+    ∧ uriOK ['u', 'r', 'n', ':', 'n', 'e', 'w'] = true
+    ∧ prefixExists ['u', 'r', 'n', ':', 'n', 'e', 'w'] (serializerNsMap m) = false :=
+  ⟨user_map_invariant _ (by decide +kernel), by decide +kernel, by decide +kernel⟩
 
 /-- `str(n)` is injective — generated prefixes `ns<k>` differ for different map sizes -/
 theorem ns_prefix_injective (a b : Nat) (h : nsLit ++ natStr a = nsLit ++ natStr b) : a = b :=
